@@ -486,7 +486,7 @@ class InlineTrans(Transformation):
                 # argument is declared as having a Range with an extent that is
                 # less than that supplied. In general we're not going to know
                 # that so we have to be conservative.
-                if local_shape:
+                if local_shape and isinstance(local_shape.upper, Node):
                     new = Range.create(local_shape.lower.copy(),
                                        local_shape.upper.copy())
                     new_indices[pos] = self._create_inlined_idx(
